@@ -9,3 +9,4 @@ import SimuVerif.Properties.C11
 import SimuVerif.Properties.C10
 import SimuVerif.Properties.C02
 import SimuVerif.Properties.C15
+import SimuVerif.Properties.C14
